@@ -998,7 +998,7 @@ def bfs_all(pool, res, shapes_depths, pid, seed, probe_every, opset=None, maxdev
                 continue
             chunk = 12
             for k in range(0, len(fr), chunk):
-                items.append(dict(shape=byname[n], prefixes=fr[k:k + chunk], depth=level, props=[pid], seed=seed, probes=pending_probes[n][:4] if k == 0 else (), opset=opset, maxdev=maxdev, label=label, nest=nest, sibling=sibling))
+                items.append(dict(shape=byname[n], prefixes=fr[k:k + chunk], depth=level, props=_want(pid), seed=seed, probes=pending_probes[n][:4] if k == 0 else (), opset=opset, maxdev=maxdev, label=label, nest=nest, sibling=sibling))
             pending_probes[n] = []
         if not items:
             break
@@ -1151,6 +1151,13 @@ def fmt_trace(trace):
 TIMING_OPS = ["exec", "iter", "setdur", "on_enable", ("engage", None, False), ("done",), ("on_disable",)]
 
 
+def _want(pid):
+    """Properties whose disagreements / monitor findings are reported.  Normally just the check's own property; the
+    maintenance switch VERIF_SM_WANT=C01,C02,C03,C04 reports all of them from one exploration (when that run is silent,
+    each single-property run over the same shapes is silent too, because without a reported disagreement no execution is cut)."""
+    return os.environ.get("VERIF_SM_WANT", pid).split(",")
+
+
 def run_check(pid, tier, seed, shapes, nops, maxdev, bfs_depth, rule_extra="", probe_every=0, sig_names=(), timing_depth=0, light_names=(), light_nops=3, light_bfs=3, light_timing=8, sibling_depth=10):
     t0 = time.time()
     items = []
@@ -1163,7 +1170,7 @@ def run_check(pid, tier, seed, shapes, nops, maxdev, bfs_depth, rule_extra="", p
         nroot = len(op_menu(sh, False, False))
         md = min(maxdev, 1) if sh["name"] in light else maxdev
         for r in range(nroot):
-            items.append(dict(shape=sh, nops=nops - less, maxdev=md, roots=[(r,)], props=[pid], seed=seed))
+            items.append(dict(shape=sh, nops=nops - less, maxdev=md, roots=[(r,)], props=_want(pid), seed=seed))
         bfs.append((sh, (bfs_depth - 2 * less) if sh["name"] not in light else light_bfs))
     res = core.Result()
     import sys as _sys
